@@ -9,6 +9,15 @@ every audit event that names a host path is recorded whatever Python API raised 
 to call today.  Classification (inside a mounted root / allow-listed read / outside) is done after
 disarming, on realpath-resolved names.
 
+A Monitor can also be given a *fence* directory: while armed, any operation that is not read-only
+and names a path outside the fence is refused (the hook raises PermissionError, which PEP 578
+turns into the failure of that operation) as well as recorded.  The code under observation may be
+genuinely broken - that is what is being tested - so it must not be able to damage the host:
+C27 runs every BASIC statement with the fence set to the case's sandbox directory.
+
+Events raised on behalf of Python itself (the import system, linecache reading a source file for a
+traceback) are recognised by their call stack and classified as allowed when read-only.
+
 Nothing in here imports or calls pcbasic.
 """
 import os
